@@ -3874,6 +3874,9 @@ func _select(n *node) {
 	}
 
 	n.exec = func(f *frame) bltn {
+		// Work on a per-execution copy of the select cases: the same statement
+		// may be executed concurrently by several goroutines.
+		cases := append([]reflect.SelectCase(nil), cases...)
 		f.mutex.RLock()
 		cases[nbClause] = f.done
 		f.mutex.RUnlock()
